@@ -149,13 +149,41 @@ class Interp:
             return
         if k == "Decl":
             for d in s["d"]:
+                t = d.get("t") or ""
+                if not d.get("init") and t.endswith("]") and "[" in t:
+                    try:
+                        env[d["id"]] = ("arr", [None] * int(t[t.rindex("[") + 1:-1]))
+                    except ValueError:
+                        self.broken(s, "array of non-constant size")
+                    continue
                 env[d["id"]] = self.expr(d["init"], env) if d.get("init") else None
             return
         if k == "Null":
             return
         if k == "Return":
             raise _Return(self.expr(s["x"], env) if s.get("x") else None)
-        if k in ("For", "While", "Do", "Switch", "Break", "Continue", "Goto", "ForRange"):
+        if k == "For":
+            # a counting loop over concrete integers (axes, slots): executed iteration by iteration
+            inner = dict(env)
+            if s.get("init") is not None:
+                self.stmt(s["init"], inner)
+            it = 0
+            while True:
+                c = self.expr(s["c"], inner) if s.get("c") is not None else True
+                if c is False:
+                    break
+                if c is not True:
+                    self.broken(s["c"], "loop condition is not decided")
+                self.stmt(s["body"], inner)
+                if s.get("inc") is not None:
+                    self.expr(s["inc"], inner)
+                it += 1
+                if it > 64:
+                    self.broken(s, "loop does not end within 64 iterations")
+            for key in env:
+                env[key] = inner[key]
+            return
+        if k in ("While", "Do", "Switch", "Break", "Continue", "Goto", "ForRange"):
             self.broken(s, "control statement %s" % k)
         v = self.expr(s, env)
         return v
@@ -183,10 +211,55 @@ class Interp:
             if isinstance(v, tuple) and v[0] == "subptr":
                 return ("subobj", v[1])
             self.broken(e, "dereference")
+        if k == "Un" and e["op"] in ("pre++", "post++", "pre--", "post--"):
+            tgt = C.strip_casts(e["x"])
+            if tgt.get("k") == "Ref" and "id" in tgt and isinstance(env.get(tgt["id"]), int):
+                old = env[tgt["id"]]
+                env[tgt["id"]] = old + (1 if "++" in e["op"] else -1)
+                return old if e["op"].startswith("post") else env[tgt["id"]]
+            self.broken(e, "increment of a non-integer")
+        if k == "Un" and e["op"] == "-":
+            v = self.expr(e["x"], env)
+            if isinstance(v, int):
+                return -v
+            self.broken(e, "negation")
+        if k == "Un" and e["op"] == "!":
+            v = self.expr(e["x"], env)
+            if isinstance(v, bool):
+                return not v
+            self.broken(e, "logical not of an undecided value")
+        if k == "Cond":
+            c = self.expr(e["c"], env)
+            if c is True:
+                return self.expr(e["a"], env)
+            if c is False:
+                return self.expr(e["b"], env)
+            self.broken(e["c"], "condition is not decided by the abstract configuration")
+        if k == "Bool":
+            return bool(e["v"])
+        if k == "InitList":
+            return ("arr", [self.expr(x, env) for x in e["a"]])
+        if k == "Idx":
+            base = self.expr(e["a"], env)
+            i = self.expr(e["i"], env)
+            if isinstance(base, tuple) and base[0] == "arr" and isinstance(i, int) and 0 <= i < len(base[1]):
+                return base[1][i]
+            self.broken(e, "subscript")
         if k == "Bin":
             op = e["op"]
             if op == "=":
                 tgt = C.strip_casts(e["a"])
+                if tgt.get("k") == "Idx":
+                    base = C.strip_casts(tgt["a"])
+                    i = self.expr(tgt["i"], env)
+                    if base.get("k") == "Ref" and "id" in base and isinstance(env.get(base["id"]), tuple) and \
+                            env[base["id"]][0] == "arr" and isinstance(i, int) and 0 <= i < len(env[base["id"]][1]):
+                        val = self.expr(e["b"], env)
+                        arr = list(env[base["id"]][1])
+                        arr[i] = val
+                        env[base["id"]] = ("arr", arr)
+                        return val
+                    self.broken(e, "assignment to an array element")
                 if tgt.get("k") != "Ref" or "id" not in tgt:
                     self.broken(e, "assignment to non-local")
                 env[tgt["id"]] = self.expr(e["b"], env)
@@ -195,6 +268,40 @@ class Interp:
                 a = self.expr(e["a"], env)
                 b = self.expr(e["b"], env)
                 return self.compare(op, a, b, e)
+            if op in ("&&", "||"):
+                a = self.expr(e["a"], env)
+                if not isinstance(a, bool):
+                    self.broken(e["a"], "operand of %s is not decided" % op)
+                if (op == "&&" and not a) or (op == "||" and a):
+                    return a
+                b = self.expr(e["b"], env)
+                if not isinstance(b, bool):
+                    self.broken(e["b"], "operand of %s is not decided" % op)
+                return b
+            if op in ("+", "-", "*"):
+                a = self.expr(e["a"], env)
+                b = self.expr(e["b"], env)
+
+                def asint(v):
+                    if isinstance(v, bool):
+                        return None
+                    if isinstance(v, int):
+                        return v
+                    if isinstance(v, tuple) and v[0] == "enum":
+                        return v[2]
+                    return None
+                if asint(a) is not None and asint(b) is not None:
+                    x, y = asint(a), asint(b)
+                    return x + y if op == "+" else (x - y if op == "-" else x * y)
+                self.broken(e, "arithmetic on %r and %r" % (a, b))
+            if op in ("+=", "-="):
+                tgt = C.strip_casts(e["a"])
+                if tgt.get("k") == "Ref" and "id" in tgt and isinstance(env.get(tgt["id"]), int):
+                    b = self.expr(e["b"], env)
+                    if isinstance(b, int):
+                        env[tgt["id"]] = env[tgt["id"]] + (b if op == "+=" else -b)
+                        return env[tgt["id"]]
+                self.broken(e, "compound assignment")
             self.broken(e, "binary operator " + op)
         if k == "Call":
             return self.call(e, env)
@@ -245,13 +352,54 @@ class Interp:
                 return r if op == "==" else not r
             if isinstance(a, int) and isinstance(b, int):
                 return (a == b) if op == "==" else (a != b)
+            if isinstance(a, bool) and isinstance(b, bool):
+                return (a == b) if op == "==" else (a != b)
+
+        def asint(v):
+            if isinstance(v, bool):
+                return None
+            if isinstance(v, int):
+                return v
+            if isinstance(v, tuple) and v[0] == "enum":
+                return v[2]
+            return None
+        if asint(a) is not None and asint(b) is not None:
+            x, y = asint(a), asint(b)
+            return {"==": x == y, "!=": x != y, "<": x < y, ">": x > y, "<=": x <= y, ">=": x >= y}[op]
         self.broken(e, "comparison %r %s %r" % (a, op, b))
+
+    helpers = {}        # qname -> function decl (free functions of the driver unit)
+    depth = 0
 
     def call(self, e, env):
         n = e.get("n")
         cls = e.get("cls", "")
         obj = self.expr(e["obj"], env) if e.get("obj") is not None else None
         args = e["a"]
+        if obj is None and not cls and e.get("fn") in Interp.helpers and not e.get("op"):
+            callee = Interp.helpers[e["fn"]]
+            if len(callee["params"]) != len(args):
+                self.broken(e, "helper arity")
+            if Interp.depth > 6:
+                self.broken(e, "helper recursion")
+            inner = {}
+            for p2, a2 in zip(callee["params"], args):
+                inner[p2["id"]] = self.expr(a2, env)
+                pt = p2["t"].rstrip()
+                if pt.endswith("&") and not pt.startswith("const") and isinstance(inner[p2["id"]], (int, bool)):
+                    self.broken(e, "integer passed by non-const reference to a helper")
+            Interp.depth += 1
+            saved_fn = self.fn
+            try:
+                self.fn = callee
+                self.stmt(callee["body"], inner)
+                ret = None
+            except _Return as r:
+                ret = r.value
+            finally:
+                self.fn = saved_fn
+                Interp.depth -= 1
+            return ret
         if isinstance(obj, tuple) and obj[0] == "closure" and e.get("op") == "()":
             lam, cenv = obj[1], obj[2]
             params = lam.get("params", [])
@@ -422,6 +570,13 @@ def run(chk, prog):
     ex = unit.func("execute_task")
     for f in (mk, sd, rs, ex):
         chk.analysed(function=f["full"])
+    # free helper functions defined in the driver unit (a refactoring may have extracted some)
+    Interp.helpers = {}
+    for d in unit.decls:
+        if d["kind"] == "function" and d.get("body") and not d.get("clsq") and not d.get("dependent") and \
+                (d.get("file") or "").endswith("TaskBasedRadiationHydrodynamicsSimulation.cpp") and \
+                d["qname"] not in ("make_hydro_tasks", "set_dependencies", "reset_hydro_tasks", "execute_task"):
+            Interp.helpers[d["qname"]] = d
     # direction enum -> (axis, sign): from the enumerator names of the six face directions; the
     # C02 table rule T1 separately proves that these names carry the geometric signature
     dirmap = {}
